@@ -100,7 +100,7 @@ for p in props:
         checks.append({
             "property_id": i,
             "quick_cmd": f"./run check {i} --tier quick",
-            "thorough_cmd": f"./run check {i} --tier thorough",
+            "thorough_cmd": f"./run thorough {i}",
             "evidence_file": f"evidence/{i}.json",
             "replay_cmd_template": "./run replay {path}",
             "engine": "perfcheck",
